@@ -182,10 +182,12 @@ impl Dom {
     pub fn clone_subtree(&mut self, n: usize) -> usize {
         let kind = self.nodes[n].kind.clone();
         let c = self.add(kind, false);
-        // template contents are not children; a clone of a template keeps an empty content fragment
-        if let Kind::Element { template, .. } = &mut self.nodes[c].kind {
-            if template.is_some() {
-                *template = None;
+        // DOM cloning steps of a template element: the clone gets a copy of the contents (its own fragment)
+        let src_tpl = if let Kind::Element { template, .. } = &self.nodes[n].kind { *template } else { None };
+        if let Some(f) = src_tpl {
+            let fc = self.clone_subtree(f);
+            if let Kind::Element { template, .. } = &mut self.nodes[c].kind {
+                *template = Some(fc);
             }
         }
         let ch = self.nodes[n].children.clone();
